@@ -121,6 +121,7 @@ func init() {
 			E5ValueTypes(c, r)
 			E5StreamFilters(c, r)
 			E5StringEscape(c, r)
+			E5PageMemoFresh(c, r)
 			E5StreamLength(c, r)
 			E5Metadata(c, r)
 			E5FontMaps(c, r)
@@ -140,6 +141,7 @@ func init() {
 			E11ConstIndexInLoop(c, r)
 			E6DashPeriod(c, r)
 			E6JoinerSupport(c, r)
+			E6MemoIndependent(c, r)
 			E6StyleCoverage(c, r, nil)
 			E6DashScaling(c, r)
 			E6WidthFrame(c, r)
@@ -195,6 +197,7 @@ func init() {
 		Run: func(c *core.Ctx, r *core.Report) {
 			E11DashCover(c, r)
 			E11DrawLoopState(c, r)
+			E11ReflectCurrentImage(c, r)
 			E11DashParity(c, r)
 			E11FitStroke(c, r)
 			E11ViewComposition(c, r)
@@ -251,6 +254,7 @@ func init() {
 			E5SubsetOnce(c, r)
 			E5WidthRuns(c, r)
 			E11DerivedScale(c, r)
+			E5TextMatrixComplete(c, r)
 			E5FontMaps(c, r)
 			E5Resources(c, r)
 		},
@@ -262,6 +266,7 @@ func init() {
 			E11SVGTransformTable(c, r)
 			E11CopyStore(c, r)
 			E11ViewBoxMirror(c, r)
+			E11StateSliceReuse(c, r)
 			E11SVGUnits(c, r)
 			E11ReuseAfterEscape(c, r, "/svg.go")
 			E11ReturnedScratch(c, r, "/svg.go")
@@ -317,6 +322,7 @@ func init() {
 			E7PoolReinit(c, r)
 			E7MapOrder(c, r)
 			E7Clock(c, r)
+			E7PointRelease(c, r)
 			E11ReturnedScratch(c, r, ".go")
 			E1SharedFont(c, r)
 			E1FontLibraryCalls(c, r)
